@@ -234,7 +234,10 @@ def make_table(S, vals, ints, case, order, extras, rows="default"):
     import pandas
     cols = [("V", C8.volumes(NV, ints))]
     for t, j in enumerate(S):
-        name = L.NAMES[j].upper() if case == "upper" else L.NAMES[j]
+        if case not in ("lower", "upper", "mixed"):
+            raise HarnessError(f"unknown letter case {case}")
+        # mixed: every other supplied component in upper case (so that symmetry-related columns are spelled differently)
+        name = L.NAMES[j].upper() if (case == "upper" or (case == "mixed" and t % 2 == 1)) else L.NAMES[j]
         v = vals[t]
         if ints:
             if not numpy.all(v == numpy.round(v)):
@@ -270,8 +273,12 @@ def make_table(S, vals, ints, case, order, extras, rows="default"):
 #              file of that name changes the verdict)
 #   style      rel: `name` | dot: `./name` | abs: absolute path | sub: `sub/name`
 # "file" = "file:plain:rel".  Rule on the tree (fill.py docstring/comment): a path that is a file is used as the relations.
-FILE_NAMEKINDS = ("plain", "own", "other")
-FILE_STYLES = ("rel", "dot", "abs", "sub")
+#   + capital letters: name kinds  caps: MyRelations.TXT | othercaps: the other system's name capitalised (e.g. ./Cubic)
+#                      styles      capsub: `Sub/Dir.X/name` | capabs: absolute path through Sub/Dir.X
+FILE_NAMEKINDS = ("plain", "own", "other", "caps", "othercaps")
+FILE_STYLES = ("rel", "dot", "abs", "sub", "capsub", "capabs")
+CAPS_FILE = "MyRelations.TXT"
+CAPS_DIR = os.path.join("Sub", "Dir.X")
 OTHER_SYSTEM = {"cubic": "hexagonal", "hexagonal": "cubic", "tetragonal6": "cubic", "tetragonal7": "tetragonal6",
                 "trigonal6": "hexagonal", "trigonal7": "trigonal6", "orthorhombic": "cubic", "monoclinic": "orthorhombic",
                 "triclinic": "cubic"}
@@ -286,9 +293,11 @@ def relations_file(system, cwd, base):
     namekind, style = ("plain", "rel") if cwd == "file" else cwd.split(":")[1:]
     if namekind not in FILE_NAMEKINDS or style not in FILE_STYLES:
         raise HarnessError(f"unknown relations-file variant {cwd}")
-    name = {"plain": USER_FILE, "own": system, "other": OTHER_SYSTEM[system]}[namekind]
-    rel = os.path.join("sub", name) if style == "sub" else name
-    arg = {"rel": name, "dot": "./" + name, "abs": os.path.join(base, name), "sub": "sub/" + name}[style]
+    name = {"plain": USER_FILE, "own": system, "other": OTHER_SYSTEM[system], "caps": CAPS_FILE,
+            "othercaps": OTHER_SYSTEM[system].capitalize()}[namekind]
+    rel = os.path.join("sub", name) if style == "sub" else (os.path.join(CAPS_DIR, name) if style in ("capsub", "capabs") else name)
+    arg = {"rel": name, "dot": "./" + name, "abs": os.path.join(base, name), "sub": "sub/" + name,
+           "capsub": CAPS_DIR + "/" + name, "capabs": os.path.join(base, CAPS_DIR, name)}[style]
     return rel, arg
 
 
@@ -303,7 +312,7 @@ def call_fill(system, table, cwd, ir, ires, drop, tol):
         elif is_file_cwd(cwd):
             rel, sysarg = relations_file(system, cwd, base)
             if os.path.dirname(rel):
-                os.mkdir(os.path.dirname(rel))
+                os.makedirs(os.path.dirname(rel))
             with open(rel, "w") as fp:
                 fp.write(L.user_relations_text(system))
         elif cwd != "empty":
@@ -1049,6 +1058,9 @@ def explore(ctx):
                     c = {k_: v for k_, v in c.items() if not (k_ == "jpick" and v == "first")}
                     cases.append(dict(c, what="cli"))
                     small_api.append(dict(c, what="lattice"))
+                    # ... x column spelling (compared with the lower-case result: the reconciled values must not depend on it)
+                    for lc in ("upper", "mixed"):
+                        small_api.append(dict(c, what="lattice", case=lc))
     # ... value shape dip x --drop-atol
     for s in L.SYSTEMS:
         for label in ("min", "full"):
@@ -1081,11 +1093,12 @@ def explore(ctx):
     ctx.run(MOD, "run_case", uniq, part="cli")
     ctx.run(MOD, "run_case", small_api, part="rounding-level-disagreements-api")
     ctx.notes["small_disagreements"] = {"deltas": [deltas(DEFAULT_TOL, False)[0], 0.01, 0.05], "which_component": ["first", "last"],
+                                        "letter_case": ["lower", "upper", "mixed"],
                                         "configurations": len(small_api)}
     # ---- F: user-written relations files: name kind x path style (content: the table's own relations, reference spelling)
     cases = []
     for s in L.SYSTEMS:
-        for label in ("min", "full"):
+        for label in (("min",) if quick else ("min", "full")):
             for nk in FILE_NAMEKINDS:
                 for st in FILE_STYLES:
                     cases.append({"what": "lattice", "system": s, "mask": subsets[s][label], "cwd": f"file:{nk}:{st}"})
